@@ -4,6 +4,7 @@ import (
 	"fmt"
 	"sort"
 	"strconv"
+	"strings"
 
 	"verif/spec"
 )
@@ -32,6 +33,20 @@ func C14Configs(p *spec.Program) []spec.Config {
 	tt, dt := *spec.SimTimeType, *spec.SimDurationType
 	tt.TypeConstructor, dt.TypeConstructor = "UseSimTime()", "example.com/x/wrappers.UseDuration()"
 	b.TimeType, b.DurationType = &tt, &dt
+	// keys in a syntax the plugin does not define (wildcards): they match nothing, in any order
+	for _, k := range []string{"Sink.*.Name", "*.Spec.Name", "Sink.Spec.*", "*.*.Name", "Sink.?pec.Name", "Sink.[S]pec.Name",
+		// aimed at a field that has no exact key of its own (Sink.Spec.Tags), several of equal length
+		"Sink.*.Tags", "*.Spec.Tags", "Sink.Spec.T*", "Sink.S*.Tags", "*.Tags", "Mid.*"} {
+		b.Validators[k] = []string{"Wild" + strings.Map(func(r rune) rune {
+			if r >= 'A' && r <= 'z' {
+				return r
+			}
+			return -1
+		}, k) + "()"}
+		b.PlanModifiers[k] = []string{"WildModifier" + fmt.Sprint(len(k)) + "()"}
+		b.NameOverrides[k] = "wild_" + fmt.Sprint(len(b.NameOverrides))
+		b.SchemaTypes[k] = spec.SimInt32Override
+	}
 	b.CustomTypes = map[string]string{"Sink.Ratio": "CustomRatio", "Scalars.FBool": "CustomBool",
 		"Sink.On": "example.com/x/wrappers.Traits", "Sink.Status.Str": "example.com/x/wrappers.ByPath", "Leaf.Str": "example.com/x/wrappers.ByType"}
 	// no exact key for the qualified types: shorter, overlapping keys must not be picked by iteration order
